@@ -472,6 +472,11 @@ impl DefragQueue {
         let frame_index = match frame.header.is_last() {
             // Operation only on the last frame
             true => {
+                // A second last frame must not change what the first one announced
+                if self.final_packet_size.is_some() {
+                    return Err(DefragmentInsertError::Duplicate(frame.header));
+                }
+
                 // If we receive the last frame, we know the final packet size.
                 let final_packet_size = frame.header.frame_offset as usize + frame.fragment.len();
                 self.final_packet_size = Some(final_packet_size);
